@@ -189,26 +189,42 @@ pub fn run_once(prog: &Program, forced: &[usize], rng: &mut Option<SmallRng>, ma
 /// can move - the replay of a schedule of the MemcConc model.
 pub fn run_sched(prog: &Program, forced: &[usize], order: Option<&[usize]>, rng: &mut Option<SmallRng>, max_steps: usize) -> RunResult {
     let sut = Arc::new(Mutex::new(Sut::new(&prog.policy, prog.mem_limit, 1 << 20)));
-    // sequential set-up (no worker context: yield points are inert)
+    // sequential set-up (no worker context: yield points are inert) - on a thread of its own under a watchdog: a
+    // set-up command that never returns (a store whose eviction sweep blocks on itself ...) is a run that hangs
     let mut events: Vec<Value> = Vec::new();
     {
-        let mut s = sut.lock().unwrap();
-        for c in &prog.setup {
-            if c.op == "tick" {
-                s.timer.now.store(c.delta, Ordering::SeqCst);
-                events.push(json!({"e": "tick", "to": c.delta}));
-                continue;
+        let sut2 = sut.clone();
+        let setup = prog.setup.clone();
+        let (stx, srx) = channel::<Vec<Value>>();
+        std::thread::spawn(move || {
+            let mut evs: Vec<Value> = Vec::new();
+            let mut s = sut2.lock().unwrap();
+            for c in &setup {
+                if c.op == "tick" {
+                    s.timer.now.store(c.delta, Ordering::SeqCst);
+                    evs.push(json!({"e": "tick", "to": c.delta}));
+                    continue;
+                }
+                let fr = frame_of(c, lit(&c.cas));
+                let (dec, resp, panicked) = s.exchange(&fr.bytes());
+                let mut ev = cmd_event(c, lit(&c.cas), &fr);
+                ev["dec"] = json!(dec);
+                ev["panic"] = json!(panicked);
+                ev["r"] = json!(parse_responses(&resp));
+                ev["present"] = json!([]);
+                ev["bytes"] = json!(0);
+                ev["usage"] = json!("");
+                evs.push(ev);
             }
-            let fr = frame_of(c, lit(&c.cas));
-            let (dec, resp, panicked) = s.exchange(&fr.bytes());
-            let mut ev = cmd_event(c, lit(&c.cas), &fr);
-            ev["dec"] = json!(dec);
-            ev["panic"] = json!(panicked);
-            ev["r"] = json!(parse_responses(&resp));
-            ev["present"] = json!([]);
-            ev["bytes"] = json!(0);
-            ev["usage"] = json!("");
-            events.push(ev);
+            drop(s);
+            let _ = stx.send(evs);
+        });
+        match srx.recv_timeout(Duration::from_secs(8)) {
+            Ok(evs) => events = evs,
+            Err(_) => {
+                events.push(json!({"e": "final", "outcome": "Hang", "steps": 0, "sched": [], "parked": [], "where": "setup"}));
+                return RunResult { outcome: Outcome::Hang, decisions: Vec::new(), events, steps: 0 };
+            }
         }
     }
     let (store, mem, timer_now, cache) = {
